@@ -630,6 +630,7 @@ func runC19(sc *Scenario, st *Stats) []Violation {
 		}
 	}
 	st.curDigest = d
+	st.curHook = conc.hookYields
 	st.Sample(map[string]any{"clients": len(sc.Clients), "topology": sc.Topology, "statements_per_client": len(sc.Clients[0].Stmts),
 		"yields": conc.yields, "context_switches": conc.switches, "interleaving_hash": fmt.Sprintf("%x", conc.traceH),
 		"client0_first_statements": firstTexts(sc.Clients[0].Stmts, 3)}, 3)
@@ -871,6 +872,7 @@ func judgeContended(sc *Scenario, st *Stats, conc *multiRes, reps []string) []Vi
 		}
 	}
 	st.curDigest = d
+	st.curHook = conc.hookYields
 	evs, usable := linHistory(sc, conc.res, conc.stamps)
 	if !usable {
 		st.Inc("contended_history_unusable")
